@@ -212,6 +212,24 @@ def query_in_config(cfg, kind, args):
 probe_command = S.struct_probe_command
 
 
+def namesake_items(unit_only=False):
+    """the user's enum has INHERENT functions called from_str / try_from / as_ref / to_string of its own (round 16)"""
+    out = []
+    for j in range(3):
+        vs = [Variant("Red", "unit", [], [ser("red"), ser("r")] if j != 1 else []), Variant("DarkGreen", "tuple", [Field("u8")], [aci(True, explicit=False)] if j else []),
+              Variant("Off", "unit", [], [DISABLED]), Variant("Blue", "named", [Field("i32", "x")])]
+        if j == 2:
+            vs.append(Variant("Other", "tuple", [Field("String")], [DEFAULT]))
+        if unit_only:
+            for v in vs:
+                if not v.has("default"):
+                    v.kind, v.fields = "unit", []
+        it = Item("E", vs, metas=[EM("aci")] if j == 1 else [], tparams=0)
+        it.namesakes = True
+        out.append(("inherent-namesakes", it))
+    return out
+
+
 def generic_shapes(**kw):
     """(round 15) type parameters that need no trait (instantiated with NoDef) and parameters with defaults"""
     return [("bound-free-parameter", it) for it in G.bound_free_items(**kw)] + [("defaulted-parameters", it) for it in G.defaulted_param_items()]
@@ -220,7 +238,7 @@ def generic_shapes(**kw):
 def build_corpus(tier, rng):
     c = Corpus(ID)
     thorough = tier == "thorough"
-    cands = generic_shapes() + [("regression", it) for it in regression()] + [("systematic", it) for it in systematic(rng)] + [("non-ascii-ident", it) for it in nonascii()] + [("long-spelling", it) for it in long_spellings() if not any(m.kind == "phf" for m in it.metas)] + [("many-variants", it) for it in many_variants()] + [("declaration-order", it) for it in declaration_order() if not any(m.kind == "phf" for m in it.metas)]
+    cands = generic_shapes() + namesake_items() + [("regression", it) for it in regression()] + [("systematic", it) for it in systematic(rng)] + [("non-ascii-ident", it) for it in nonascii()] + [("long-spelling", it) for it in long_spellings() if not any(m.kind == "phf" for m in it.metas)] + [("many-variants", it) for it in many_variants()] + [("declaration-order", it) for it in declaration_order() if not any(m.kind == "phf" for m in it.metas)]
     for _ in range(1400 if thorough else 110):
         cands.append(("random", G.string_enum(rng)))
     infos = G.classify(ID, [it for _, it in cands])
